@@ -187,14 +187,14 @@ structure Frame (s s' : St) : Prop where
   seqs : s'.seqs.map skey = s.seqs.map skey
   nq : s'.nq = s.nq
   t : s'.t = s.t
-  p : s'.p = s.p
+  p : pp s' = pp s
 
 theorem Frame.refl (s : St) : Frame s s := ⟨rfl, rfl, rfl, rfl, rfl⟩
 theorem Frame.trans {s1 s2 s3 : St} (h1 : Frame s1 s2) (h2 : Frame s2 s3) : Frame s1 s3 :=
   ⟨h2.ras.trans h1.ras, h2.seqs.trans h1.seqs, h2.nq.trans h1.nq, h2.t.trans h1.t, h2.p.trans h1.p⟩
 
 theorem Frame.of_eq {s s' : St} (e1 : s'.ras = s.ras) (e2 : s'.seqs = s.seqs) (e3 : s'.nq = s.nq) (e4 : s'.t = s.t)
-    (e5 : s'.p = s.p) : Frame s s' := ⟨by rw [e1], by rw [e2], e3, e4, e5⟩
+    (e5 : pp s' = pp s) : Frame s s' := ⟨by rw [e1], by rw [e2], e3, e4, e5⟩
 
 theorem Frame.ra_map {s s' : St} (h : Frame s s') (id : Nat) : (getRa s' id).map rkey = (getRa s id).map rkey :=
   find_key_congr rkey (fun k => k.1 == id) s.ras s'.ras h.ras
@@ -284,7 +284,7 @@ theorem Frame.of_setSeq {s : St} {a : Addr} {q q0 : Seq} (u : Uniq s) (hg : getS
 
 /-- a write of a role-equivalent rollapp record on top of role-irrelevant changes -/
 theorem Frame.of_setRa_eq {s s1 : St} {id : Nat} {r r0 : Rollapp} (u : Uniq s) (hg : getRa s id = some r0)
-    (e1 : s1.ras = s.ras) (e2 : s1.seqs = s.seqs) (e3 : s1.nq = s.nq) (e4 : s1.t = s.t) (e5 : s1.p = s.p)
+    (e1 : s1.ras = s.ras) (e2 : s1.seqs = s.seqs) (e3 : s1.nq = s.nq) (e4 : s1.t = s.t) (e5 : pp s1 = pp s)
     (hid : r.id = r0.id) (hp : r.proposer = r0.proposer) (hs : r.successor = r0.successor) : Frame s (setRa s1 r) :=
   (Frame.of_eq e1 e2 e3 e4 e5).trans (Frame.of_setRa (u.of_eq e1 e2) (by rw [getRa_congr e1]; exact hg) hid hp hs)
 
@@ -312,7 +312,7 @@ structure RolesCore (s : St) : Prop where
   optOut : ∀ q ∈ s.seqs, q.notice.isSome = true → q.optedIn = false
   nq : ∀ t a, (t, a) ∈ s.nq → ∃ q r, getSeq s a = some q ∧ q.notice = some t ∧ getRa s q.rollapp = some r ∧ r.proposer = some a
   fut : ∀ e ∈ s.nq, s.t < e.1
-  np : 0 < s.p.noticePeriod
+  np : 0 < s.sqp.noticePeriod
 
 /-- a successor exists only while there is a proposer -/
 def SuccProp (s : St) : Prop := ∀ r ∈ s.ras, r.proposer = none → r.successor = none
@@ -365,7 +365,8 @@ theorem RolesCore.frame {s s' : St} (h : RolesCore s) (f : Frame s s') : RolesCo
   · intro e he
     rw [f.nq] at he
     rw [f.t]; exact h.fut e he
-  · rw [f.p]; exact h.np
+  · have e : s'.sqp = s.sqp := congrArg Prod.snd f.p
+    rw [e]; exact h.np
 
 theorem SuccProp.frame {s s' : St} (h : SuccProp s) (f : Frame s s') : SuccProp s' := by
   intro r' hr' hp
